@@ -262,6 +262,10 @@ func (s *solver) check(st *termStore, extra *Term) (satResult, map[string]uint64
 			break
 		}
 	}
+	if s.log != nil {
+		// the answer is recorded in the transcript so that a second solver can be compared with it
+		io.WriteString(s.log, "; ANSWER "+line+"\n")
+	}
 	switch {
 	case line == "unsat":
 		s.stats.Unsat++
